@@ -239,3 +239,62 @@ func H_C10_meta_types() {
 	}
 	vReach("end")
 }
+
+// H_C10_helpers: the convenience helpers SendLogMessage and SendProgress with a symbolic level / message /
+// progress value: the client handler sees them unchanged, once, before the result.
+func H_C10_helpers() {
+	vRandConcrete(true)
+	srv := NewServer("srv", "1.0", WithPostSSEEnabled(true), WithGetSSEEnabled(false))
+	bridge := &c10Bridge{inner: &verifBridge{handler: srv.httpHandler}}
+	c, err := NewClient("http://h.example/mcp", Implementation{Name: "c", Version: "1"}, WithHTTPReqHandler(bridge), WithClientGetSSEEnabled(false))
+	if err != nil {
+		panic(err)
+	}
+	helper := vChoice("helper", 2)
+	level := vString("level", 9)
+	message := vString("message", 6)
+	progress := float64(vIntRange("progressPercent", 0, 100)) / 4
+	var sendErr error
+	srv.RegisterTool(NewTool("t"), func(ctx context.Context, r *CallToolRequest) (*CallToolResult, error) {
+		sender, ok := GetNotificationSender(ctx)
+		if !ok {
+			return nil, context.Canceled
+		}
+		if helper == 0 {
+			sendErr = sender.SendLogMessage(level, message)
+		} else {
+			sendErr = sender.SendProgress(progress, message)
+		}
+		return NewTextResult("done"), nil
+	})
+	returned := false
+	var seen []*JSONRPCNotification
+	h := func(n *JSONRPCNotification) error {
+		vAssert("notification-before-result", !returned)
+		seen = append(seen, n)
+		return nil
+	}
+	c.RegisterNotificationHandler("notifications/message", h)
+	c.RegisterNotificationHandler("notifications/progress", h)
+	_, ierr := c.Initialize(context.Background(), &InitializeRequest{})
+	vAssume(ierr == nil)
+	res, cerr := c.CallTool(context.Background(), &CallToolRequest{Params: CallToolParams{Name: "t"}})
+	returned = true
+	vAssert("result-arrives", vAnd(cerr == nil, res != nil))
+	vAssert("send-ok", sendErr == nil)
+	vAssert("delivered-once", len(seen) == 1)
+	if len(seen) == 1 {
+		f := seen[0].Params.AdditionalFields
+		data, _ := f["data"].(map[string]interface{})
+		if helper == 0 {
+			vAssert("log-method", seen[0].Method == "notifications/message")
+			vAssert("log-level-intact", f["level"] == level)
+			vAssert("log-message-intact", data["message"] == message)
+		} else {
+			vAssert("progress-method", seen[0].Method == "notifications/progress")
+			vAssert("progress-value-intact", vAnd(f["progress"] == progress, data["progress"] == progress))
+			vAssert("progress-message-intact", vAnd(f["message"] == message, data["message"] == message))
+		}
+	}
+	vReach("end")
+}
